@@ -85,12 +85,74 @@ def run_store(store, batches=BATCHES):
         hits += h
         bad += b
     if len(store) <= 2:
+        # wave 15: histories on one holder - stream, save more spans (late
+        # children of spans already streamed), stream again, stream a third
+        # time: every later stream must be complete and correctly linked
+        k, b = run_restream(store, batches)
+        n += k
+        bad += b
+    if len(store) <= 2:
         # root spans whose "no parent" is written as the empty string
         k, b, h = run_store_mode(store, False, empty_root=True,
                                  batches=batches)
         n += k
         bad += b
     return n, bad, hits
+
+
+def run_restream(store, batches):
+    bad = []
+    n = 0
+    traces = [om.spans_of(sh, f"j{k}", nm) for k, (nm, sh) in enumerate(store)]
+    allspans = {s['event_id']: s for t in traces for s in t}
+    kids = {}
+    for s in allspans.values():
+        if s['parent_event_id']:
+            kids.setdefault(s['parent_event_id'], set()).add(s['event_id'])
+    names = sorted({nm for nm, _ in store})
+    byname = {nm: [f"j{k}" for k, (n2, _) in enumerate(store) if n2 == nm]
+              for nm in names}
+
+    def snapshot(h, flt=None):
+        got = []
+        for nm, gen in h.stream_data(flt):
+            jobs = [[e for e in g] for g in gen]
+            got.append((nm, [[(e.job_id, e.event_id, e.parent_event_id,
+                               frozenset(e.child_event_ids), e.job_name,
+                               e.event_type, e.start_timestamp,
+                               e.end_timestamp, e.application_name)
+                              for e in j] for j in jobs]))
+        return got
+    orders = om.ingestion_orders(traces)
+    for bs in (batches[0], batches[-1]):
+        for on in ("seq", "rr"):
+            order = orders[on]
+            for p in range(1, len(order)):
+                n += 1
+                h = impl_otel.new_holder(batch_size=bs)
+                try:
+                    impl_otel.ingest(h, order[:p])
+                    snapshot(h)
+                    impl_otel.ingest(h, order[p:])
+                    for rnd, flt in ((2, None), (3, None),
+                                     (4, {names[0]: set(byname[names[0]])})):
+                        prob = compare(snapshot(h, flt), flt, byname,
+                                       allspans, kids)
+                        if prob:
+                            bad.append({"bs": bs, "order": on,
+                                        "filter": "none" if flt is None
+                                        else "allofone",
+                                        "consumer": f"restream{p}.{rnd}",
+                                        "shared": False, "problem": prob})
+                            break
+                except Exception as e:
+                    bad.append({"bs": bs, "order": on, "filter": "none",
+                                "consumer": f"restream{p}", "shared": False,
+                                "problem": ["exception", type(e).__name__,
+                                            str(e)[:160]]})
+                finally:
+                    h.engine.dispose()
+    return n, bad
 
 
 def scale_store(n):
